@@ -188,7 +188,7 @@ pub fn gen_api_plan(prop: Prop, seed: u64, tier: Tier, index: u64, batch_seed: u
         "spurious_permille": *srng.pick(&[0u32, 0, 5, 20]),
         "sched": *srng.pick(&["random", "random", "pct", "pct", "sticky"]),
         "pct_depth": srng.range(1, 5),
-        "max_steps": 60000,
+        "max_steps": if tier == Tier::Thorough { 1_500_000 } else { 250_000 },
         "known_avoid": known_avoid,
         "no_cancel": no_cancel,
         "clients": clients,
